@@ -40,7 +40,7 @@ META['level_text'] = (
     'random nested templates (every DNA of spaces up to 200, 50 random beyond), on corrupted DNA trees and perturbed values; the direct oracle evaluates the property text on the real objects.')
 META['level_note'] = (
     'Tie: a fail-closed translator regenerates Float._decode / Float.encode, the exception classes try_encode swallows, the index test of Choices._decode and the constraint checks of Choices.encode from the current source on every run (proved equal to the model: generated_agree) and pins the AST of the 19 functions the model was transcribed from. Partial: "never modify the template" and "decoding twice gives equal values" are definitionally true of a pure Gallina function and are NOT claimed as theorems; they are decided by the '
-    'oracle only (pg.to_json and a structural snapshot of the template before/after every decode / encode / iter / materialize; two decodes compared with pg.eq; decoded values share no node with the template). '
+    'oracle only (pg.to_json and a structural snapshot of the template before/after every decode / encode / iter / materialize; two decodes compared with pg.eq; decoded values share no node with the template; HISTORY on one template object: decode, the caller modifies the result at every reachable node, decode again and another DNA — compared with a fresh template, node-disjoint from earlier results, encoded back; sequences of DNAs on templates with pg.hyper.reference). '
     'Runtime aliasing is not expressible in the model. Trusted: Coq kernel; extraction cross-checked with vm_compute; the harness. Modelled, not verified: the Python code itself (tied by the correspondence); '
     'user code of CustomHyper subclasses is a Section variable with stated hypotheses. Statements only partly proved are named *_partial in coq/Properties/C13.v and listed in design/C13.md.')
 
@@ -830,6 +830,36 @@ def perturbations(rng, vd, limit):
   if len(out) > limit: out = rng.sample(out, limit)
   return out
 
+def mutate_everywhere(v):
+  """Changes a decoded value at every reachable mutable node (what a caller may do with a value it was handed): a leaf re-bound,
+  a key added, an item appended.  Returns the number of changes made.  Placeholders left by a filter are not entered."""
+  pg = py()['pg']
+  nodes = []
+  def walk(x):
+    if isinstance(x, pg.hyper.HyperPrimitive): return
+    if isinstance(x, pg.Symbolic) or isinstance(x, (list, dict)):
+      kids_ = list(x.sym_items()) if isinstance(x, pg.Symbolic) else (list(x.items()) if isinstance(x, dict) else list(enumerate(x)))
+      for _, c in kids_: walk(c)
+      nodes.append((x, kids_))
+  walk(v)
+  n = 0
+  for x, kids_ in nodes:
+    leaf_keys = [k for k, c in kids_ if not isinstance(c, (pg.Symbolic, list, dict))]
+    def change():
+      if isinstance(x, pg.Object):
+        if not leaf_keys: return 0
+        x.rebind({str(leaf_keys[0]): 'MUTATED'}); return 1
+      if isinstance(x, dict):
+        x['mutated'] = 'MUTATED'
+        if leaf_keys: x[leaf_keys[0]] = 'MUTATED'
+        return 1
+      x.append('MUTATED')
+      if leaf_keys: x[leaf_keys[0]] = 'MUTATED'
+      return 1
+    ok, r = attempt(change)
+    if ok: n += r
+  return n
+
 def ends_sdna(s, sd, pick):
   """sd with every float decision replaced by the lower (pick=1) or upper (pick=2) end of its range."""
   out = []
@@ -963,6 +993,8 @@ def process_template(job):
       ok2, v2 = attempt(lambda: tm.decode(dna))
       if not ok2 or not pg.eq(v, v2) or from_pg(v2) != vd:
         rec.hit('C13/decode-twice/%s' % feat, 'decoding %s twice gives %s and then %s' % (dna, describe(vd), describe(from_pg(v2)) if ok2 else type(v2).__name__), dcase)
+      elif set(sym_nodes(v, {})) & set(sym_nodes(v2, {})):
+        rec.hit('C13/history/results-share-nodes/%s' % ('root' if v is v2 else 'inner'), 'two decodes of %s on the same template object return values that share a mutable node: changing one changes the other; template %s (%s)' % (dna, td, wd), dcase)
       unchanged('decode', dict(sdna=sd))
       # every typed field of the decoded value is accepted by its value spec
       bad_field = check_specs(v)
@@ -1017,6 +1049,40 @@ def process_template(job):
         rec.count(('enc', trlib.to_line(wtr), trlib.to_line(ttr), trlib.to_line(t_tr(pv))), nontrivial=True, kind='encode-perturbed')
         rec.hist('perturbed_encode_outcome', 'dna' if oke else type(de).__name__); rec.hist('perturbation_kinds', kind)
       unchanged('encode-perturbed', dict(sdna=sd))
+  # HISTORY on the same template object: decode d1, change the result everywhere a caller can, decode d1 again and d2: the later
+  # results must be what a fresh template gives, share no node with the earlier ones, and still encode to their DNA
+  if sds and time.time() < P['deadline']:
+    pairs_ = [(0, len(sds) - 1)] + ([(len(sds) // 2, 0)] if len(sds) > 2 else [])
+    for i1, i2 in pairs_:
+      d1, d2 = G.build_dna(sds[i1]), G.build_dna(sds[i2])
+      hcase = dict(case0, op='history', sdna=sds[i1], sdna2=sds[i2])
+      okA, vA = attempt(lambda: tm.decode(d1))
+      if not okA: continue
+      okd, descA = attempt(lambda: from_pg(vA))
+      if not okd: continue
+      nodesA = sym_nodes(vA, {})
+      nmut = mutate_everywhere(vA)
+      rec.oracle += 1
+      rec.hist('history_mutations_per_value', min(nmut, 5))
+      okB, vB = attempt(lambda: tm.decode(d1)); okC, vC = attempt(lambda: tm.decode(d2))
+      okF, fresh = attempt(lambda: pg.template(hv, where=fn))
+      okFB, fB = attempt(lambda: fresh.decode(d1)); okFC, fC = attempt(lambda: fresh.decode(d2))
+      if not (okB and okC and okF and okFB and okFC):
+        bad = [x for o, x in ((okB, vB), (okC, vC), (okF, fresh), (okFB, fB), (okFC, fC)) if not o][0]
+        rec.hit('C13/history/raises-%s/%s' % (type(bad).__name__, feat), 'after a decoded value of %s was modified by the caller, decoding on the same or on a fresh template raises %s: %s; template %s (%s)' % (d1, type(bad).__name__, str(bad)[:120], td, wd), hcase)
+        continue
+      oks, ds = attempt(lambda: (from_pg(vB), from_pg(fB), from_pg(vC), from_pg(fC)))
+      if not oks or ds[0] != descA or ds[1] != descA or ds[2] != ds[3] or not pg.eq(vB, fB) or not pg.eq(vC, fC):
+        rec.hit('C13/history/decode-after-mutation-differs/%s' % feat, 'decode(%s), then the caller modifies that value, then decode(%s) / decode(%s) on the SAME template object: got %s / %s, a fresh template gives %s / %s; template %s (%s)' % (
+            d1, d1, d2, describe(ds[0]) if oks else '?', describe(ds[2]) if oks else '?', describe(ds[1]) if oks else '?', describe(ds[3]) if oks else '?', td, wd), hcase)
+      nodesB, nodesC = sym_nodes(vB, {}), sym_nodes(vC, {})
+      if (set(nodesA) & set(nodesB)) or (set(nodesC) & (set(nodesA) | set(nodesB))) or ((set(nodesB) | set(nodesC)) & set(hv_nodes)):
+        rec.hit('C13/history/results-share-nodes/successive', 'successive decode results on the same template object share a mutable node; template %s (%s)' % (td, wd), hcase)
+      if dist and oks and ds[0] == descA:
+        okE, dE = attempt(lambda: tm.encode(vB))
+        if not okE or G.freeze(G.dna_to_tree(dE)) != G.freeze(G.dna_to_tree(d1)):
+          rec.hit('C13/history/encode/%s' % feat, 'after the history, encode(decode(%s)) = %s; template %s (%s)' % (d1, dE if okE else type(dE).__name__, td, wd), hcase)
+    unchanged('history')
   # iteration
   if exhaustive and len(s[1]) > 0:
     oki, L = attempt(lambda: list(pg.iter(hv, where=fn)))
@@ -1152,6 +1218,62 @@ def evolvable_oracle(ctx):
       ctx.count(('evolvable', kind, str(dna)), nontrivial=True, kind='evolvable(oracle only)')
   ctx.extra['evolvable_oracle_cases'] = n
 
+def reference_oracle(ctx):
+  """Templates with pg.hyper.reference (derived values, hyper/derived.py) inside placeholder-free candidates: the value of the
+  reference depends on ANOTHER decision, so the order of library-side evaluation matters.  Sequences of DNAs on ONE template object,
+  every result modified by the caller after it was recorded; each result must equal the hand-computed value and what a fresh
+  template gives.  Oracle only (derived values are not in the model)."""
+  pg = py()['pg']
+  ref = pg.hyper.reference
+  A = py()['classes'][0]
+  specs = [
+      ('dict-candidate', lambda: pg.Dict(q=pg.oneof([1, 2]), a=pg.oneof([pg.Dict(x=ref('q')), 0])),
+       lambda d: {'q': [1, 2][d[0]], 'a': {'x': [1, 2][d[0]]} if d[1] == 0 else 0}, [(0, 0), (1, 0), (0, 1), (1, 1)]),
+      ('list-candidate', lambda: pg.Dict(q=pg.oneof(['u', 'v']), a=pg.oneof([7, pg.List([ref('q'), 1])])),
+       lambda d: {'q': 'uv'[d[0]], 'a': 7 if d[1] == 0 else ['uv'[d[0]], 1]}, [(0, 1), (1, 1), (0, 0), (1, 0)]),
+      ('object-candidate', lambda: pg.Dict(q=pg.oneof([1, 2]), a=pg.manyof(2, [A(x=ref('q'), y=0), 5, pg.Dict(k=ref('q'))], distinct=False)),
+       None, [(0, (0, 0)), (1, (0, 2)), (0, (2, 1)), (1, (1, 1)), (1, (0, 0))]),
+      ('top-level-field', lambda: pg.Dict(q=pg.oneof([1, 2, 3]), r=ref('q'), s=pg.Dict(t=ref('q'))),
+       lambda d: {'q': d[0] + 1, 'r': d[0] + 1, 's': {'t': d[0] + 1}}, [(0,), (2,), (1,)]),
+  ]
+  def to_dna(d):
+    D = pg.DNA
+    return D(None, [D(None, [D(c) for c in x]) if isinstance(x, tuple) else D(x) for x in d])
+  n = 0
+  for kind, mk, expect, ds in specs:
+    hv = mk()
+    before = pg.format(hv, compact=True)
+    ok, tm = attempt(lambda: pg.template(hv))
+    if not ok:
+      ctx.hit('C13/template-raises/%s/reference' % type(tm).__name__, 'pg.template raises on a template with pg.hyper.reference (%s): %s' % (kind, str(tm)[:150]), dict(op='reference', kind=kind)); continue
+    seq = ds + ds[::-1] + [ds[0], ds[0]]
+    earlier = {}
+    for step, d in enumerate(seq):
+      n += 1
+      dna = to_dna(d)
+      case = dict(op='reference', kind=kind, sequence=[list(map(str, x)) for x in seq[:step + 1]])
+      ok1, v = attempt(lambda: tm.decode(dna))
+      okf, vf = attempt(lambda: pg.template(mk()).decode(dna))
+      if not ok1 or not okf:
+        bad = v if not ok1 else vf
+        ctx.hit('C13/decode-raises/%s/reference' % type(bad).__name__, 'decode of %s raises %s: %s (pg.hyper.reference in %s, step %d of the sequence)' % (dna, type(bad).__name__, str(bad)[:150], kind, step), case); break
+      plain, plainf = pg.to_json(v), pg.to_json(vf)
+      if plain != plainf or not pg.eq(v, vf) or (expect is not None and plain != expect(d)):
+        ctx.hit('C13/history/decode-after-mutation-differs/reference', 'step %d of %s on ONE template object (%s): decode(%s) = %s, a fresh template gives %s%s' % (
+            step, [str(to_dna(x)) for x in seq[:step + 1]], kind, dna, plain, plainf, '' if expect is None else ', expected %s' % expect(d)), case); break
+      shared = [k for k, nodes in earlier.items() if set(nodes) & set(sym_nodes(v, {}))]
+      if shared:
+        ctx.hit('C13/history/results-share-nodes/reference', 'decode(%s) at step %d shares a mutable node with the result of step %s (%s)' % (dna, step, shared[0], kind), case); break
+      ok3, d3 = attempt(lambda: tm.encode(v))
+      if not ok3 or G.freeze(G.dna_to_tree(d3)) != G.freeze(G.dna_to_tree(dna)):
+        ctx.hit('C13/history/encode/reference', 'encode(decode(%s)) = %s at step %d (%s)' % (dna, d3 if ok3 else '%s: %s' % (type(d3).__name__, str(d3)[:100]), step, kind), case); break
+      earlier[step] = sym_nodes(v, {})
+      mutate_everywhere(v)
+      if pg.format(hv, compact=True) != before:
+        ctx.hit('C13/template-modified/reference', 'the history modified a template with pg.hyper.reference (%s)' % kind, case); break
+      ctx.count(('reference', kind, step), nontrivial=True, kind='reference(oracle only)')
+  ctx.extra['reference_oracle_cases'] = n
+
 def run_jobs(jobs, nproc):
   import multiprocessing as mp
   if nproc <= 1 or len(jobs) < 8:
@@ -1237,7 +1359,8 @@ def run(ctx):
     cases += rec.cases; impl += rec.impl; descr += rec.descr
     noracle += rec.oracle
   evolvable_oracle(ctx)
-  ctx.extra['oracle_evaluations'] = noracle + ctx.extra.get('evolvable_oracle_cases', 0)
+  reference_oracle(ctx)
+  ctx.extra['oracle_evaluations'] = noracle + ctx.extra.get('evolvable_oracle_cases', 0) + ctx.extra.get('reference_oracle_cases', 0)
   model = ctx.model_run(cases)
   lookup = {id(c): d for c, d in zip(cases, descr)}
   ctx.compare('HyperRun.run vs pg.template(...).dna_spec / decode / encode / pg.iter', cases, impl, model, describe=lambda c: lookup.get(id(c)))
